@@ -68,6 +68,8 @@ mutual
     | .none, _ => rfl
     | .bool _, _ => rfl
     | .int _, _ => rfl
+    | .float _, _ => rfl
+    | .negzero, _ => rfl
     | .str _, _ => rfl
     | .missing, _ => rfl
     | .list xs, h => by
@@ -95,6 +97,8 @@ mutual
     | .none => rfl
     | .bool _ => rfl
     | .int _ => rfl
+    | .float _ => rfl
+    | .negzero => rfl
     | .str _ => rfl
     | .missing => rfl
     | .list xs => by simp only [PgDict.cloneVal, cloneList_eq xs]
